@@ -88,7 +88,8 @@ class BreakEx(Exception):
 
 
 class ContinueEx(Exception):
-    pass
+    def __init__(self, target=None):
+        self.target = target
 
 
 class PanicEx(Exception):
@@ -1182,7 +1183,9 @@ class State:
                     raise EvalError('for pattern')
                 try:
                     self.expr(body, env2)
-                except ContinueEx:
+                except ContinueEx as c:
+                    if c.target not in (loop_id, None):
+                        raise
                     continue
                 except BreakEx as b:
                     if b.target in (loop_id, None):
@@ -1199,8 +1202,9 @@ class State:
                 raise EvalError('for pattern')
             try:
                 self.expr(body, env)
-            except ContinueEx:
-                pass
+            except ContinueEx as c:
+                if c.target not in (loop_id, None):
+                    raise
             except BreakEx as b:
                 if b.target not in (loop_id, None):
                     raise
@@ -1244,7 +1248,9 @@ class State:
                         env.update(env2)
                         try:
                             self.expr(ifn['t'], env)
-                        except ContinueEx:
+                        except ContinueEx as c:
+                            if c.target not in (loop_id, None):
+                                raise
                             continue
                         except BreakEx as b:
                             if b.target in (loop_id, None):
@@ -1261,7 +1267,9 @@ class State:
                             return UNIT
                         try:
                             self.expr(ifn['t'], env)
-                        except ContinueEx:
+                        except ContinueEx as c:
+                            if c.target not in (loop_id, None):
+                                raise
                             continue
                         except BreakEx as b:
                             if b.target in (loop_id, None):
@@ -1279,8 +1287,9 @@ class State:
                     binder(env)
                     try:
                         self.expr(ifn['t'], env)
-                    except ContinueEx:
-                        pass
+                    except ContinueEx as c:
+                        if c.target not in (loop_id, None):
+                            raise
                     except BreakEx as b:
                         if b.target not in (loop_id, None):
                             raise
@@ -1293,7 +1302,9 @@ class State:
                 return UNIT
             try:
                 self.block(body, env)
-            except ContinueEx:
+            except ContinueEx as c:
+                if c.target not in (loop_id, None):
+                    raise
                 continue
             except BreakEx as b:
                 if b.target in (loop_id, None):
@@ -1306,7 +1317,7 @@ class State:
         raise BreakEx(e.get('target'), v)
 
     def e_Continue(self, e, env):
-        raise ContinueEx()
+        raise ContinueEx(e.get('target'))
 
     def e_Ret(self, e, env):
         v = self.expr(e['e'], env) if 'e' in e else UNIT
